@@ -75,6 +75,12 @@ class Program:
         return m.env[name]
 
     def cls(self, modname, name):
+        m = self.modules.get(modname)
+        if m is None or name not in m.env:
+            # the class moved to another module of the library: it is still the one class of that name
+            same = [c for c in self.classes() if c.name == name]
+            if len(same) == 1:
+                return same[0]
         c = self.get(modname, name)
         if not isinstance(c, ClassVal):
             raise AnalysisError("anchor-missing", "%s:%s is not a class" % (modname, name))
